@@ -128,6 +128,14 @@ def run(ctx):
         cases.append(c)
     matrix = illtyped_matrix()
     cases += matrix
+    # the indexing / slicing probe programs of the C12 engine (every guard path of the deref
+    # and slice handlers): here only the crash oracle is applied to them
+    try:
+        from checks import c12 as _c12
+        for pr in _c12.gen_programs(ctx):
+            cases.append({"id": "c12probe|%s" % pr.pid, "src": pr.source(), "pid": "c12probe:%s" % pr.pid})
+    except Exception as ex:      # the C12 engine is optional for this check
+        ctx.notes["c12_probes_unavailable"] = repr(ex)[:200]
     batches = list(chunks(cases, 60))
     results = vmcheck.pmap(lambda b: nevrun.run_batch(drv, b, timeout_per=8), batches)
     hist = collections.Counter()
